@@ -54,3 +54,49 @@ Definition pytree_body_src (rb : bool) (l1 : leafty) (structure : option string)
 Definition pytree_check_src (rb : bool) (l : leafty) (structure : option string) (x : ptree) (s : pstore) : verdict * pstore :=
   match x with Node KNone [] => (Acc, s) | _ => pytree_body_src rb l structure x s end.
 End PT.
+
+(* ---------- the transient flags: flatten mode and '?'-leaf position, with their try/finally brackets as parameters ----------
+   (the flatten-mode bracket has no counterpart here: in the model the only fault during the flatten phase is a nested
+   PyTree check raising, which clears the mode itself; faulting user flatteners are exercised by the harness only)
+   fin_path: `try: for leaf: set_treepath_memo(..); if not check: return False; clear_treepath_memo() finally: clear` --
+             without the finally the position is cleared only after a leaf that matched. *)
+Section Flags.
+Variable st : symtab.
+Definition pytree_body_flags (fin_path : bool) (l1 : leafty) (structure : option string) (x : ptree) (s : pstore) : verdict * pstore :=
+  let snapshot := top_frame s in
+  let restore (s' : pstore) := set_top s' snapshot in
+  let '(fl, s1, e) := flatten_with (flat_fn st l1) x (with_flat s true) in
+  match fl with
+  | None => (Raise (match e with Some e => e | None => OtherExc end), restore (with_flat s1 false))
+  | Some (leaves, structure_x) =>
+      let s2 := with_flat s1 false in
+      let '(m, tm) := top_frame s2 in
+      let sr := match structure with
+                | None => StOk tm
+                | Some str => structure_step (read_structure str) structure_x tm
+                end in
+      match sr with
+      | StRaise => (Raise AnnotationErr, restore s2)
+      | StNo => (Rej, restore s2)
+      | StOk tm' =>
+          let s3 := set_top s2 (fst (top_frame s2), tm') in
+          let '(vd, s4) := leaf_loop (check_fn st l1) structure leaves 0%nat s3 in
+          match vd with
+          | Acc => (Acc, with_path s4 None)
+          | _ => (vd, restore (if fin_path then with_path s4 None else s4))
+          end
+      end
+  end.
+
+Definition pytree_check_flags (fin_path : bool) (l : leafty) (structure : option string) (x : ptree) (s : pstore) : verdict * pstore :=
+  match x with Node KNone [] => (Acc, s) | _ => pytree_body_flags fin_path l structure x s end.
+End Flags.
+
+(* ---------- the disabled wrapper: where the test of the switch sits (gen/Brackets.v: disabled_returns_before_push) ---------- *)
+From JT Require Export model.Config.
+Definition wrapper_trace_src (early : bool) (disabled ntc_fn ntc_wrapper : bool) (c : callinfo) : list event :=
+  if early then wrapper_trace disabled ntc_fn ntc_wrapper c
+  else if disabled || ntc_fn || ntc_wrapper then
+    (* the test placed after signature binding and push: binding errors surface, a context is opened around the body *)
+    (if negb (binds c) then [EBind; ETypeError] else [EBind; EPush; EBody; EPop])
+  else wrapper_trace disabled ntc_fn ntc_wrapper c.
